@@ -26,6 +26,14 @@ CLAIMED.update({
             "§3 C08"),
 })
 
+CLAIMED.update({
+    "C02": ("model_checking",
+            "stateless exploration of environment answers: the harness plays the user function, enumerates every answer sequence over a 7-letter alphabet at the first 6 (quick) / 7-8 (thorough) queries with prefix-replaying DFS, oracle = certificate over all continuous completions; plus complete family products and one-request-per-child diagnostics",
+            "An execution of Find_Root is determined by the answers it receives; every finite set of (abscissa, value) pairs is consistent with a continuous function, so enumerating all answer sequences is enumerating all continuous functions up to the depth bound. On every execution: all abscissae and the result lie in the bracket, (a,b) and (b,a) give identical queries and bits, and the recorded answers contain a zero or an adjacent opposite-sign pair within the accuracy of the result (equivalent to: every continuous function consistent with what was seen changes sign within the accuracy). Violations are materialised as a piecewise-linear function and replayed as a plain call. Concrete families (power laws over 13 decades, saturating CDF-like functions, inflection, multiple roots, linear) are enumerated completely over brackets x 9 accuracies x both orders.",
+            "Deviations are confined to the first D queries (later queries are answered by the piecewise-linear interpolant of earlier answers); answer alphabet {0, +-1e-6, +-1, +-1e6}; 'within accuracy' allows 4 ulp of the abscissa.",
+            "§3 C02"),
+})
+
 NOT_APPLICABLE = {
 }
 
